@@ -15,6 +15,8 @@ type Clause struct {
 }
 
 type LoopAnn struct {
+	Auto      bool     // synthesised in sweep mode (invariants inferred, see autoinv.go)
+	Surviving []string // labels of inferred invariants
 	UnfoldInit []*SExp // unfold instances needed only to establish the invariant on entry
 	Inv       []*Clause
 	Unfold    []*SExp
